@@ -14,6 +14,10 @@ use serde_json::{json, Value};
 pub struct PlantedAll {
     pub lists: Vec<Vec<ConeSpec>>,
     pub label: String,
+    /// (objective scale k, magnitude beta): P,q are multiplied by k; q and b by beta. Both maps send a strictly
+    /// feasible primal-dual pair to a strictly feasible pair (x*,s* scale by beta, z* by k*beta), so the
+    /// transformed instance is in the family G as long as entries stay within 1e3
+    pub scales: Vec<(f64, f64)>,
 }
 
 fn nvars_for(m: usize) -> usize {
@@ -31,7 +35,22 @@ impl PlantedAll {
         let n = nvars_for(cones_numel(l));
         3u64.pow(n as u32) * 2 * 2 * 3 * p_menu(n).len() as u64 * 2
     }
-    fn decode(&self, mut id: u64) -> Prob {
+    fn decode(&self, id: u64) -> Prob {
+        let per: u64 = self.lists.iter().map(|l| self.per_list(l)).sum();
+        let (k, beta) = self.scales[(id / per) as usize];
+        let mut p = self.decode_base(id % per);
+        for v in p.q.iter_mut() {
+            *v *= k * beta;
+        }
+        for v in p.p.a.iter_mut() {
+            *v *= k;
+        }
+        for v in p.b.iter_mut() {
+            *v *= beta;
+        }
+        p
+    }
+    fn decode_base(&self, mut id: u64) -> Prob {
         for l in &self.lists {
             let c = self.per_list(l);
             if id < c {
@@ -52,9 +71,12 @@ impl PlantedAll {
     }
 }
 
-fn record(ctx: &mut Ctx, r: &Run) {
+fn record(ctx: &mut Ctx, r: &Run, pop: &str) {
     ctx.outcome(status_name(r.status));
-    ctx.outcome(&format!("iters={:03}", r.iterations));
+    ctx.outcome(&format!("pop:{}:iters={:03}", pop, r.iterations));
+    if r.status == SolverStatus::Solved {
+        ctx.outcome(&format!("pop:{}:Solved", pop));
+    }
     ctx.transitions += r.iterations as u64 + 1;
     if r.status == SolverStatus::Solved {
         ctx.nontrivial += 1;
@@ -66,18 +88,23 @@ impl Space for PlantedAll {
         format!("planted-all-{}", self.label)
     }
     fn size(&self) -> u64 {
-        self.lists.iter().map(|l| self.per_list(l)).sum()
+        self.lists.iter().map(|l| self.per_list(l)).sum::<u64>() * self.scales.len() as u64
     }
     fn describe(&self, id: u64) -> Value {
         self.decode(id).to_json()
     }
     fn bound(&self) -> Value {
-        json!({"cone_lists": self.lists.len(), "per_list": "all x* in {-1,0,1}^n, 2 s*, 2 z*, 3 A patterns, P menu, full/triu"})
+        json!({"cone_lists": self.lists.len(), "per_list": "all x* in {-1,0,1}^n, 2 s*, 2 z*, 3 A patterns, P menu, full/triu", "(objective scale, magnitude)": self.scales})
     }
     fn run(&self, id: u64, ctx: &mut Ctx) -> CaseResult {
         let p = self.decode(id);
         let r = run_solver(&p, &SettingsSpec::default(), false).map_err(|e| Violation::new("panic-on-well-posed-problem", e))?;
-        record(ctx, &r);
+        let genpow = p.cones.iter().any(|c| matches!(c, ConeSpec::GenPow(_, _)));
+        record(ctx, &r, if self.scales.len() == 1 { "base" } else if genpow { "scaled-genpow" } else { "scaled" });
+        if std::env::var("VERIF_C06_STRICT").is_ok() {
+            // debugging aid: every instance that is not Solved becomes a replayable case
+            ensure!(r.status == SolverStatus::Solved, &format!("debug-not-solved:{}", status_name(r.status)), "{}", p.to_json());
+        }
         // individual hard failures are violations on their own: a planted strictly feasible
         // pair has a solution, so an infeasibility verdict is simply wrong
         ensure!(
@@ -176,7 +203,7 @@ impl Space for Replicated {
     fn run(&self, id: u64, ctx: &mut Ctx) -> CaseResult {
         let p = self.decode(id);
         let r = run_solver(&p, &SettingsSpec::default(), false).map_err(|e| Violation::new("panic-on-well-posed-problem", e))?;
-        record(ctx, &r);
+        record(ctx, &r, "base");
         ensure!(
             !matches!(r.status, SolverStatus::PrimalInfeasible | SolverStatus::DualInfeasible | SolverStatus::AlmostPrimalInfeasible | SolverStatus::AlmostDualInfeasible),
             "infeasibility-verdict-on-strictly-feasible-problem",
@@ -194,68 +221,79 @@ pub const MIN_SOLVED_FRACTION: f64 = 0.995;
 pub const P95_ITERATIONS_MAX: u32 = 20;
 pub const P999_ITERATIONS_MAX: u32 = 40;
 
-/// aggregate oracle over the completed enumeration
+/// aggregate oracle over the completed enumeration, per population
 pub fn post(pr: &mut PropRun) {
-    let mut total = 0u64;
-    let mut solved = 0u64;
-    let mut hist: Vec<(u32, u64)> = vec![];
-    let mut incomplete = false;
-    for rep in &pr.reports {
-        if !rep.complete {
-            incomplete = true;
-        }
-        for (k, v) in &rep.ctx.outcomes {
-            if let Some(it) = k.strip_prefix("iters=") {
-                hist.push((it.parse().unwrap(), *v));
-                total += v;
-            } else if k == "Solved" {
-                solved += v;
-            }
-        }
-    }
-    if total == 0 || incomplete {
+    if pr.reports.iter().any(|r| !r.complete) {
         pr.notes.push("aggregate oracle skipped: enumeration incomplete".into());
         return;
     }
-    hist.sort();
-    let mut acc = 0u64;
-    let mut p95 = 0u32;
-    let mut p999 = 0u32;
-    let mut maxit = 0u32;
-    for (it, c) in &hist {
-        if acc < (total as f64 * 0.95).ceil() as u64 {
-            p95 = *it;
+    let findings = load_findings();
+    for pop in ["base", "scaled", "scaled-genpow"] {
+        let mut total = 0u64;
+        let mut solved = 0u64;
+        let mut hist: Vec<(u32, u64)> = vec![];
+        for rep in &pr.reports {
+            for (k, v) in &rep.ctx.outcomes {
+                let Some(rest) = k.strip_prefix(&format!("pop:{}:", pop)) else { continue };
+                if let Some(it) = rest.strip_prefix("iters=") {
+                    hist.push((it.parse().unwrap(), *v));
+                    total += v;
+                } else if rest == "Solved" {
+                    solved += v;
+                }
+            }
         }
-        if acc < (total as f64 * 0.999).ceil() as u64 {
-            p999 = *it;
+        if total == 0 {
+            continue;
         }
-        acc += c;
-        maxit = *it;
-    }
-    let frac = solved as f64 / total as f64;
-    pr.notes.push(format!(
-        "aggregate over {} enumerated well-posed instances: Solved fraction {:.5} (required >= {}), p95 iterations {} (<= {}), p99.9 iterations {} (<= {}), max iterations {} (reported only)",
-        total, frac, MIN_SOLVED_FRACTION, p95, P95_ITERATIONS_MAX, p999, P999_ITERATIONS_MAX, maxit
-    ));
-    let mut fail = |key: &str, detail: String| {
-        let v = Violation::new(key, detail);
-        let path = write_replay(&pr.property, "aggregate", 0, json!({"aggregate": true}), &v);
-        pr.new_violations.push(("aggregate".into(), 0, v, path));
-    };
-    if frac < MIN_SOLVED_FRACTION {
-        fail("solved-fraction-below-envelope", format!("{:.5} < {}", frac, MIN_SOLVED_FRACTION));
-    }
-    if p95 > P95_ITERATIONS_MAX {
-        fail("p95-iterations-above-envelope", format!("{} > {}", p95, P95_ITERATIONS_MAX));
-    }
-    if p999 > P999_ITERATIONS_MAX {
-        fail("p999-iterations-above-envelope", format!("{} > {}", p999, P999_ITERATIONS_MAX));
+        hist.sort();
+        let (mut acc, mut p95, mut p999, mut maxit) = (0u64, 0u32, 0u32, 0u32);
+        for (it, c) in &hist {
+            if acc < (total as f64 * 0.95).ceil() as u64 {
+                p95 = *it;
+            }
+            if acc < (total as f64 * 0.999).ceil() as u64 {
+                p999 = *it;
+            }
+            acc += c;
+            maxit = *it;
+        }
+        let frac = solved as f64 / total as f64;
+        pr.notes.push(format!(
+            "population '{}': {} enumerated well-posed instances, Solved fraction {:.5} (required >= {}), p95 iterations {} (<= {}), p99.9 iterations {} (<= {}, base population only), max iterations {} (reported only)",
+            pop, total, frac, MIN_SOLVED_FRACTION, p95, P95_ITERATIONS_MAX, p999, P999_ITERATIONS_MAX, maxit
+        ));
+        let mut fails: Vec<(String, String)> = vec![];
+        if frac < MIN_SOLVED_FRACTION {
+            // the known finding covers the measured band only: a collapse of the rate is a different violation
+            let key = if pop == "scaled-genpow" && frac < GENPOW_SCALED_FLOOR { "solved-fraction-collapsed".to_string() } else { "solved-fraction-below-envelope".to_string() };
+            fails.push((format!("{}:{}", key, pop), format!("{:.5} < {}", frac, MIN_SOLVED_FRACTION)));
+        }
+        if pop != "scaled-genpow" && p95 > P95_ITERATIONS_MAX {
+            fails.push((format!("p95-iterations-above-envelope:{}", pop), format!("{} > {}", p95, P95_ITERATIONS_MAX)));
+        }
+        if pop == "base" && p999 > P999_ITERATIONS_MAX {
+            fails.push((format!("p999-iterations-above-envelope:{}", pop), format!("{} > {}", p999, P999_ITERATIONS_MAX)));
+        }
+        for (key, detail) in fails {
+            if let Some(f) = findings.iter().find(|f| f.property == pr.property && f.status == "known" && key.starts_with(&f.key)) {
+                *pr.known_hits.entry(format!("{} ({})", f.what, f.key)).or_insert(0) += 1;
+                continue;
+            }
+            let v = Violation::new(&key, detail);
+            let path = write_replay(&pr.property, "aggregate", 0, json!({"aggregate": true, "population": pop}), &v);
+            pr.new_violations.push(("aggregate".into(), 0, v, path));
+        }
     }
 }
 
+/// below this Solved fraction the scaled generalised-power population is no longer the recorded finding
+pub const GENPOW_SCALED_FLOOR: f64 = 0.85;
+
 pub const ASSUMPTIONS: &[&str] = &[
     "the property is distributional over a random generator; what is decided here is the same statement over the completely enumerated planted lattice family (and its block-replicated extension to n=60), not over random dense data",
-    "envelopes (Solved fraction >= 99.5%, p95 iterations <= 20 [measured 14], p99.9 <= 40 [measured 23]) were fixed once from the unchanged tree with head-room and are constants of the check",
+    "envelopes (Solved fraction >= 99.5% as the property states; p95 iterations <= 20 [measured 15 base / 12 scaled], p99.9 <= 40 [measured 32, base population]) were fixed once from the unchanged tree with head-room and are constants of the check",
+    "three populations are judged separately: 'base' (the +-1 lattice family and its replicated extension), 'scaled' (the same family with the objective scaled by 1e2/1e-3/10 and the magnitudes of b,q scaled by 1e2/1e-3/30/10 -- maps that preserve strict primal-dual feasibility -- for cone lists without a generalised power cone) and 'scaled-genpow' (the scaled family for lists with a generalised power cone), for which the unchanged tree reaches only 95.7% Solved: an open known finding; below 85% it would be reported as a different violation",
 ];
 
 pub fn spaces(tier: &str, _seed: u64) -> Vec<Box<dyn Space>> {
@@ -285,7 +323,13 @@ pub fn spaces(tier: &str, _seed: u64) -> Vec<Box<dyn Space>> {
         vec![SOC(5)],
     ];
     vec![
-        Box::new(PlantedAll { lists, label: if thorough { "L3M8".into() } else { "L2M6".into() } }),
+        Box::new(PlantedAll { lists: lists.clone(), label: if thorough { "L3M8".into() } else { "L2M6".into() }, scales: vec![(1.0, 1.0)] }),
+        // the same family at other magnitudes (entries up to 1e3, objectives up to ~1e7)
+        Box::new(PlantedAll {
+            lists: if thorough { cone_lists(&atoms, 2, 1, 6) } else { let mut l = cone_lists(&atoms, 1, 1, 6); l.extend(lists[lists.len() - 6..lists.len() - 1].iter().cloned()); l },
+            label: "scaled".into(),
+            scales: vec![(1e2, 1.0), (1e-3, 1.0), (1.0, 1e2), (1.0, 1e-3), (1.0, 30.0), (10.0, 10.0)],
+        }),
         Box::new(Replicated { lists: rep_lists, reps: if thorough { vec![2, 5, 10, 20] } else { vec![2, 5, 10] } }),
     ]
 }
